@@ -176,6 +176,8 @@ void historyOn(NifFile& nif, const std::string& SN, const JV& h, size_t k, const
 				a.add(b);
 			}
 			given = a.done();
+			// (one variant first takes every triangle away: the new list then arrives in a shape that has none)
+			if (v == 1) shape->SetTriangles(std::vector<Triangle>());
 			shape->SetTriangles(d);
 		}
 		else
